@@ -456,7 +456,13 @@ impl Database {
         let mut catalog_guard = self.shared.catalog.write();
         let catalog = catalog_guard.as_mut().unwrap();
 
-        let table_def = catalog.resolve_table(table_name)?;
+        let table_def = catalog.resolve_table_in_schema(Some(schema_name), table_name)?;
+        if table_def.get_index(index_name).is_some() {
+            if create.if_not_exists {
+                return Ok(ExecuteResult::CreateIndex { created: false });
+            }
+            bail!("index '{}' already exists", index_name);
+        }
         let columns = table_def.columns().to_vec();
         let schema = create_record_schema(&columns);
 
@@ -481,7 +487,9 @@ impl Database {
             }
         }
 
-        let table_id = catalog.resolve_table(table_name)?.id();
+        let table_id = catalog
+            .resolve_table_in_schema(Some(schema_name), table_name)?
+            .id();
 
         drop(catalog_guard);
 
@@ -635,7 +643,7 @@ impl Database {
                 let schema_name = table_ref.schema.unwrap_or(DEFAULT_SCHEMA);
                 let table_name = table_ref.name;
 
-                catalog.resolve_table(table_name)?;
+                catalog.resolve_table_in_schema(Some(schema_name), table_name)?;
                 info.push((schema_name.to_string(), table_name.to_string()));
             }
             info
@@ -683,7 +691,7 @@ impl Database {
 
             let catalog_guard = self.shared.catalog.read();
             let catalog = catalog_guard.as_ref().unwrap();
-            let table_def = catalog.resolve_table(table_name)?;
+            let table_def = catalog.resolve_table_in_schema(Some(schema_name), table_name)?;
             let indexes: Vec<String> = table_def
                 .indexes()
                 .iter()
